@@ -24,6 +24,7 @@ type env struct {
 	depth       int
 	noDef       bool // inside a define-fun-rec body: no side definitions
 	inOld       bool
+	fvAddrs     map[string]tval // captured variables of a closure: name -> address
 }
 
 type specError string
@@ -35,7 +36,7 @@ func (en *env) fail(format string, args ...interface{}) {
 // contractEnv: names are the function's own parameters, named results and source
 // variables (resolved through debug info).
 func (e *fnEnc) contractEnv(st, old *state, li *loopInfo) *env {
-	en := &env{e: e, st: st, old: old, names: map[string]tval{}, loop: li, fn: e.fn}
+	en := &env{e: e, st: st, old: old, names: map[string]tval{}, loop: li, fn: e.fn, fvAddrs: e.freevars}
 	for k, v := range e.params {
 		en.names[k] = v
 	}
@@ -293,6 +294,13 @@ func (en *env) ident(name string) tval {
 	}
 	if v, ok := en.names[name]; ok {
 		return v
+	}
+	// captured variable of a closure: its current value
+	if a, ok := en.fvAddrs[name]; ok {
+		if pt, isPtr := a.typ.Underlying().(*types.Pointer); isPtr {
+			return tval{term: en.e.loadValue(en.st, a.term, pt.Elem()), typ: pt.Elem()}
+		}
+		return a
 	}
 	// results
 	if name == "result" && len(en.results) >= 1 {
@@ -737,6 +745,8 @@ type modAddr struct {
 	typ    types.Type
 	region string // slice term: all elements
 	sort   *Sort
+	mapObj string // map (or ghost map) handle: its whole content
+	mapTyp types.Type
 }
 
 // modAddrs expands one `modifies` item: an lvalue, or elems(s).
@@ -749,6 +759,16 @@ func (en *env) modAddrs(m Expr) []modAddr {
 		}
 		return []modAddr{{region: s.term, sort: en.e.sortOf(sl.Elem()), typ: sl.Elem()}}
 	}
+	if c, ok := m.(*ECall); ok && (c.Fun == "gmap" || c.Fun == "content") {
+		v := en.eval(m)
+		if c.Fun == "content" {
+			v = en.eval(c.Args[0])
+		}
+		if _, isMap := v.typ.Underlying().(*types.Map); !isMap {
+			en.fail("modifies %s(): not a map", c.Fun)
+		}
+		return []modAddr{{mapObj: v.term, mapTyp: v.typ}}
+	}
 	a, t := en.addrOf(m)
 	return []modAddr{{addr: a, typ: t}}
 }
@@ -759,6 +779,10 @@ func (en *env) inModifies(m Expr, addr string) string {
 	for _, ma := range en.modAddrs(m) {
 		if ma.region != "" {
 			alts = append(alts, app("in_slice", addr, ma.region))
+			continue
+		}
+		if ma.mapObj != "" {
+			alts = append(alts, eq(addr, ma.mapObj))
 			continue
 		}
 		alts = append(alts, en.cellCovers(ma.addr, ma.typ, addr))
@@ -862,6 +886,21 @@ func (en *env) callExpr(v *ECall) tval {
 			}
 		}
 		en.fail("%s of %s", v.Fun, x.typ)
+	case "gmap":
+		// gmap(obj, K, V): the ghost map view of an opaque container object (an interface
+		// or pointer value): a map[K]V handle at the object's reference
+		x := en.eval(v.Args[0])
+		kt, vt := en.typeArg(v.Args[1]), en.typeArg(v.Args[2])
+		ref := x.term
+		if en.e.sortOf(x.typ).kind == skIface {
+			ref = app("i_val", x.term)
+		}
+		return tval{term: ref, typ: types.NewMap(kt, vt)}
+	case "unbox":
+		// unbox(e, T): the dynamic value of interface e viewed as pointer-shaped type T
+		x := en.eval(v.Args[0])
+		t := en.typeArg(v.Args[1])
+		return tval{term: app("i_val", x.term), typ: t}
 	case "soff":
 		x := en.eval(v.Args[0])
 		return tval{term: app("s_off", x.term), typ: types.Typ[types.Int]}
@@ -896,14 +935,7 @@ func (en *env) callExpr(v *ECall) tval {
 	case "typeis":
 		// typeis(x, T): dynamic type of interface value x is T
 		x := en.eval(v.Args[0])
-		tn := exprName(v.Args[1])
-		if u, ok := v.Args[1].(*EUnary); ok && u.Op == "*" {
-			tn = "*" + exprName(u.X)
-		}
-		t := en.lookupType(tn)
-		if t == nil {
-			en.fail("typeis: unknown type %s", tn)
-		}
+		t := en.typeArg(v.Args[1])
 		return tval{term: fmt.Sprintf("(= (i_tag %s) %d)", x.term, en.e.V.ST.typeID(t)), typ: boolT}
 	case "be", "bytesBE":
 		// be(s, n): the n bytes of slice s as a big-endian BV(8n), n a literal <= 64
@@ -971,6 +1003,24 @@ func (en *env) callExpr(v *ECall) tval {
 	}
 	en.fail("unknown function %q", v.Fun)
 	return tval{}
+}
+
+// typeArg evaluates an expression used as a type name (T, *T, pkg.T, *pkg.T, []T).
+func (en *env) typeArg(x Expr) types.Type {
+	name := ""
+	switch v := x.(type) {
+	case *EUnary:
+		if v.Op == "*" {
+			return types.NewPointer(en.typeArg(v.X))
+		}
+	default:
+		name = exprName(x)
+	}
+	t := en.lookupType(name)
+	if t == nil {
+		en.fail("unknown type %q", name)
+	}
+	return t
 }
 
 func (en *env) specCall(sf *SpecFunc, v *ECall) tval {
